@@ -321,19 +321,38 @@ def read(req, name):
 
 
 # --------------------------------------------------------------------------- histories on the real implementation
-class World:
+class Side:
     """One environ, two long-lived wrappers over it, and the views handed out so far."""
 
-    def __init__(self, envspec, prime=True):
-        self.env = make_environ(envspec)
-        names = envspec.get("classes") or ["Request", "Request"]
-        self.w = [wrapper_class(n)(self.env) for n in names]
+    def __init__(self, env, wrappers, prime):
+        self.env = env
+        self.w = wrappers
         self.gets = []      # held GetDict handles
         self.ccs = []       # held CacheControl handles
         self.jars = []      # held RequestCookies handles
         self.hdrs = []      # held EnvironHeaders handles
         # the documented per-object memory: the charset is fixed at first use -> use it now
         self.sticky = [catch(lambda: r.charset) for r in self.w] if prime else [None, None]
+
+
+class World:
+    """The environ a history starts from, plus every COPY of an environ made on the way (copy(), copy_get(),
+    Request(dict(environ))): each is a Side; operations go to the current one."""
+
+    def __init__(self, envspec, prime=True):
+        env = make_environ(envspec)
+        names = envspec.get("classes") or ["Request", "Request"]
+        self.prime = prime
+        self.sides = [Side(env, [wrapper_class(n)(env) for n in names], prime)]
+        self.cur = 0
+
+    env = property(lambda self: self.sides[self.cur].env)
+    w = property(lambda self: self.sides[self.cur].w)
+    gets = property(lambda self: self.sides[self.cur].gets)
+    ccs = property(lambda self: self.sides[self.cur].ccs)
+    jars = property(lambda self: self.sides[self.cur].jars)
+    hdrs = property(lambda self: self.sides[self.cur].hdrs)
+    sticky = property(lambda self: self.sides[self.cur].sticky)
 
 
 def make_environ(spec):
@@ -584,6 +603,18 @@ def apply_op(W, op, rec=None):
         W.w[op[1] % 2] = r
         W.sticky[op[1] % 2] = catch(lambda: r.charset)
         return None
+    if t == "fork":           # ["fork", w, how]: a further live wrapper over a COPY of the environ; the history goes on there
+        how = op[2]
+        r2 = catch({"copy": lambda: req.copy(), "copy_get": lambda: req.copy_get(), "dict": lambda: type(req)(dict(env)),
+                    "envcopy": lambda: type(req)(env.copy())}[how])
+        if isinstance(r2, Err):
+            return canon(r2)
+        W.sides.append(Side(r2.environ, [r2, type(r2)(r2.environ)], W.prime))
+        W.cur = len(W.sides) - 1
+        return None
+    if t == "side":           # ["side", i]: go on with the wrappers of environ number i
+        W.cur = op[1] % len(W.sides)
+        return None
     if t == "knob":           # ["knob", w, name, value]: a class-level knob set on the instance after construction
         return canon(catch(setattr, req, op[2], decode_value(op[3])))
     if t == "adhoc":          # ["adhoc", w, name, value]
@@ -638,6 +669,12 @@ class LastView:
         self.cc = (c, dict(c.properties))
 
 
+def text_part(env):
+    """The CGI / WSGI text of an environ: what a write through the wrappers of ANOTHER environ must never touch
+    (nested mutable objects -- the body object, ad-hoc attribute and routing dicts -- are shared by a shallow copy)."""
+    return {k: v for k, v in env.items() if k not in CACHE_KEYS and (isinstance(v, (str, int, bool, tuple)) or v is None)}
+
+
 def post_cache_valid(env):
     c = env.get("webob._parsed_post_vars")
     return c is not None and c[1] is env.get("wsgi.input")
@@ -684,7 +721,7 @@ def compare_all(W, step, op, getters, rng=None):
             if a != f and g in nonstr_dependents(env):
                 continue      # outside the statement: a CGI key holds something that is not a native string
             if a != f:
-                return (classify(g, op, a, f, pre),
+                return (classify(g, op, a, f, pre, env),
                         "step %d %r: request.%s through long-lived wrapper %d = %r but a brand-new Request over the same "
                         "environ reports %r" % (step, op, g, wi, a, f))
     return None
@@ -706,13 +743,17 @@ def nonstr_dependents(env):
     return out
 
 
-def classify(g, op, a, f, env=None):
+def classify(g, op, a, f, env=None, live_env=None):
     base = g.split(".")[0]
     if base in ("cache_control",):
         c = (env or {}).get("webob._cache_control")
         if c and c[1] is not None:
             from webob.cachecontrol import UpdateDict
             props = c[1].properties
+            owner = getattr(getattr(props, "updated", None), "__self__", None)
+            if live_env is not None and getattr(owner, "environ", None) is not None and owner.environ is not live_env:
+                # the cached object writes back to another environ (the one this environ was copied from)
+                return "copy:cache_control-bound-to-other-environ"
             if not isinstance(props, UpdateDict) or props.updated is None:
                 # the cached object does not write back: it is the one handed to the setter
                 return "cache_control:assigned-object-not-live"
@@ -769,6 +810,63 @@ def header_key(name):
     if u in ("CONTENT_TYPE", "CONTENT_LENGTH") and "_" not in name:
         return u
     return "HTTP_" + u
+
+
+def header_like_keys(env):
+    """The environ keys that stand for request headers (RFC 3875 4.1.18, plus the two meta-variables)."""
+    return [k for k in env if isinstance(k, str) and (k in ("CONTENT_TYPE", "CONTENT_LENGTH") or (k.startswith("HTTP_") and len(k) > 5))]
+
+
+def expected_names(env):
+    """The names request.headers must list, written from the key: the two meta-variables, the two keys that would
+    collide with them (HTTP_CONTENT_TYPE is the header spelled Content_Type), else the title-cased rest of HTTP_*."""
+    special = {"CONTENT_TYPE": "Content-Type", "CONTENT_LENGTH": "Content-Length", "HTTP_CONTENT_TYPE": "Content_Type",
+               "HTTP_CONTENT_LENGTH": "Content_Length"}
+    return [special[k] if k in special else k[5:].replace("_", "-").title() for k in header_like_keys(env)]
+
+
+_MISSING = object()
+
+
+def headers_laws(req, env, step, op, who):
+    """The enumeration laws of the headers mapping, on the current state (deletions are tried on copies)."""
+    h = catch(lambda: req.headers)
+    names = catch(lambda: list(h.keys()))
+    if isinstance(h, Err) or isinstance(names, Err) or not all(isinstance(n, str) for n in names):
+        return None
+    where = "step %d %r, %s: " % (step, op, who)
+    lows = [n.lower() for n in names]
+    if len(set(lows)) != len(lows):
+        return ("headers:name-listed-twice", where + "request.headers lists %r for environ keys %r" % (names, header_like_keys(env)))
+    if catch(len, h) != len(names) or catch(lambda: list(iter(h))) != names:
+        return ("headers:len-or-iteration-differs-from-keys", where + "len=%r iter=%r keys=%r" % (catch(len, h), catch(lambda: list(iter(h))), names))
+    if names != expected_names(env):
+        return ("headers:listing-differs-from-environ", where + "request.headers lists %r, the environ keys %r stand for %r"
+                % (names, header_like_keys(env), expected_names(env)))
+    items = catch(lambda: list(h.items()))
+    for n in names:
+        k = header_key(n)
+        v = catch(h.__getitem__, n)
+        if catch(h.__contains__, n) is not True or k not in env or v is not env[k]:
+            return ("headers:listed-name-reads-another-key", where + "%r is listed, but headers[%r] = %r, %r in headers = %r, "
+                    "environ[%r] = %r" % (n, n, v, n, catch(h.__contains__, n), k, env.get(k, "<absent>")))
+    if isinstance(items, Err) or [n for n, _ in items] != names or any(v is not env[header_key(n)] for n, v in items) \
+            or catch(lambda: dict(h)) != {n: env[header_key(n)] for n in names}:
+        return ("headers:items-disagree-with-reads", where + "items() = %r, per-name reads %r"
+                % (items, [[n, env[header_key(n)]] for n in names]))
+    for n in names[:12]:
+        e2 = dict(env)
+        r = catch(type(req)(e2).headers.__delitem__, n)
+        changed = {k for k in set(env) | set(e2) if e2.get(k, _MISSING) is not env.get(k, _MISSING)}
+        if isinstance(r, Err) or changed != {header_key(n)}:
+            return ("headers:delete-of-listed-name-hits-another-key", where + "del headers[%r] -> %r, environ keys changed: %r "
+                    "(expected %r)" % (n, r, sorted(changed), header_key(n)))
+    e2 = dict(env)
+    r = catch(type(req)(e2).headers.clear)
+    if isinstance(r, Err) or header_like_keys(e2):
+        return ("headers:clear-leaves-headers", where + "headers.clear() -> %r leaves %r in the environ (was %r)"
+                % (r, header_like_keys(e2), header_like_keys(env)))
+    return None
 
 
 def allowed_keys(op):
@@ -921,6 +1019,12 @@ def check_write(W, step, op, before, ret):
         key = ATTR_KEY[op[2]]
         if key in env and op[2] not in ("body", "text", "json", "json_body", "body_file"):
             return ("write-lands:del-not-removed", "step %d %r: %s still holds %r" % (step, op, key, env[key]))
+    if t == "hdr" and op[3][0] in ("clear", "assign", "assign_pairs", "assign_headers"):
+        want = set() if op[3][0] == "clear" else {header_key(a) for a, _ in op[3][1]}
+        got = set(header_like_keys(env))
+        if got != want:
+            return ("write-lands:headers-left-after-replacing", "step %d %r: the environ still/only carries header keys %r, the new "
+                    "mapping stands for %r" % (step, op, sorted(got), sorted(want)))
     if t == "hdr":
         m = op[3]
         m = [m[0]] + [decode_value(x) for x in m[1:]]
@@ -958,8 +1062,22 @@ def run_history(envspec, ops, getters=None, lazy_seed=None):
         return bad
     for i, op in enumerate(ops):
         before = env_snapshot(W.env)
+        others = [(sd, text_part(sd.env)) for sd in W.sides]
+        origin = W.sides[W.cur]
         last = LastView()
         ret = apply_op(W, op, last)
+        for sd, was in others:
+            if sd is origin and op[0] != "fork":
+                continue          # the environ this operation writes to
+            now = text_part(sd.env)
+            changed = {k for k in set(was) | set(now) if was.get(k) != now.get(k)}
+            if op[0] == "fork" and sd is origin:
+                changed -= BODY_KEYS        # copy() makes the original's body seekable first (documented)
+            if changed:
+                k = sorted(changed)[0]
+                return ("copy:cache_control-bound-to-other-environ" if k == "HTTP_CACHE_CONTROL" else "copy:other-environ-changed:" + k,
+                        "step %d %r changed %r in ANOTHER environ (the one it was copied from / a copy of it): %r -> %r"
+                        % (i, op, sorted(changed), was.get(k), now.get(k)))
         if isinstance(ret, Err) and ret.name not in REFUSALS:
             return ("refusal:unexpected-exception", "step %d %r raised %s (refusals seen from webob's setters and views: %s)"
                     % (i, op, ret.name, ", ".join(sorted(REFUSALS))))
@@ -968,14 +1086,24 @@ def run_history(envspec, ops, getters=None, lazy_seed=None):
             return bad
         if final_only and i < len(ops) - 1:
             continue
-        if rng is not None and i < len(ops) - 1:
-            # lazy mode: only a few getters are read between steps, so caches are primed in varying combinations
-            sub = rng.sample(getters, min(len(getters), 4))
-            bad = compare_all(W, i, op, sub, rng)
-        else:
-            bad = compare_all(W, i, op, getters, rng)
-        if bad:
-            return bad
+        for j, sd in enumerate(W.sides):   # the enumeration laws of the headers mapping, long-lived and brand-new wrapper
+            bad = headers_laws(sd.w[0], sd.env, i, op, "long-lived wrapper, environ #%d" % j) \
+                or headers_laws(fresh_request(sd.env, type(sd.w[0])), sd.env, i, op, "brand-new Request, environ #%d" % j)
+            if bad:
+                return bad
+        keep = W.cur
+        for j in range(len(W.sides)):      # coherence for the wrappers of every environ
+            W.cur = j
+            if rng is not None and i < len(ops) - 1:
+                # lazy mode: only a few getters are read between steps, so caches are primed in varying combinations
+                sub = rng.sample(getters, min(len(getters), 4))
+                bad = compare_all(W, i, op, sub, rng)
+            else:
+                bad = compare_all(W, i, op, getters, rng)
+            if bad:
+                W.cur = keep
+                return (bad[0], bad[1] + (" [environ #%d of %d]" % (j, len(W.sides)) if len(W.sides) > 1 else ""))
+        W.cur = keep
     return None
 
 
@@ -1031,7 +1159,8 @@ REQUIRED_KEYS = {"PATH_INFO", "SERVER_NAME", "SERVER_PORT", "SERVER_PROTOCOL", "
 HEADER_NAMES = ["Cookie", "cookie", "COOKIE", "Cache-Control", "cache-control", "Content-Type", "content-type",
                 "CONTENT-TYPE", "Content-Length", "Host", "host", "X-Foo", "x-foo", "X-FOO", "x_foo", "Accept", "accept",
                 "If-None-Match", "if-none-match", "Range", "User-Agent", "Content_Type", "If-Modified-Since",
-                "X-Requested-With", "X-Forwarded-For", "Authorization", "Accept-Language"]
+                "X-Requested-With", "X-Forwarded-For", "Authorization", "Accept-Language", "Content_Length",
+                "content_length", "CONTENT_TYPE", "content_type"]
 HEADER_POOL = {"COOKIE": COOKIE_POOL, "CACHE-CONTROL": CC_POOL, "CONTENT-TYPE": CT_POOL, "CONTENT_TYPE": CT_POOL,
                "CONTENT-LENGTH": INT_POOL, "HOST": HOST_POOL, "ACCEPT": ACCEPT_POOL, "IF-NONE-MATCH": ETAG_POOL,
                "RANGE": RANGE_POOL, "IF-MODIFIED-SINCE": DATE_POOL, "AUTHORIZATION": AUTH_POOL,
@@ -1183,13 +1312,17 @@ def rand_header_value(rng, name):
 def rand_op(rng, focus=None):
     """One operation; `focus` biases towards a family (None = everything)."""
     fam = focus or rng.choice(["attr", "attr", "attr", "del", "env", "env", "env", "hdr", "hdr", "GET", "GET", "cookies",
-                               "cookies", "cc", "cc", "hold", "body", "call", "read", "misc", "knob", "shape", "shape"])
+                               "cookies", "cc", "cc", "hold", "body", "call", "read", "misc", "knob", "shape", "shape", "fork"])
     if fam == "knob":
         return rand_knob_op(rng)
     if fam == "shape":
         return rand_shape_op(rng)
     if fam == "outside":
         return rand_outside_op(rng) if rng.random() < 0.6 else rand_op(rng, None)
+    if fam == "fork":
+        if rng.random() < 0.55:
+            return ["fork", rng.randrange(2), rng.choice(["copy", "copy_get", "dict", "envcopy"])]
+        return ["side", rng.randrange(3)]
     w = rng.randrange(2)
     if fam == "attr":
         n = rng.choice(sorted(ATTR_VALUES))
@@ -1391,6 +1524,9 @@ def rand_envspec(rng):
     spec["classes"] = [rng.choice(CLASS_NAMES), rng.choice(CLASS_NAMES)]
     if kind == "blank" and rng.random() < 0.35:
         spec["blank_kw"] = rng.choice(BLANK_KW)
+    if rng.random() < 0.2:      # what a server makes of the header spellings Content_Type / Content_Length
+        for k in rng.choice([["HTTP_CONTENT_TYPE"], ["HTTP_CONTENT_LENGTH"], ["HTTP_CONTENT_TYPE", "HTTP_CONTENT_LENGTH"]]):
+            spec["set"].append([k, rng.choice(ENV_KEYS[k])])
     if kind == "server":
         spec["method"] = rng.choice(["GET", "POST"])
     for _ in range(rng.randrange(4)):
@@ -1413,6 +1549,8 @@ def rand_history(rng, maxlen, focus=None):
     foci = None
     if focus == "mixed-cache":
         foci = ["GET", "cookies", "cc", "env", "hdr", "hold", "attr"]
+    if focus == "copies":
+        foci = ["fork", "fork", "GET", "cookies", "cc", "cc", "hdr", "attr", "env", "hold", "read", "body"]
     if focus == "config":
         foci = ["knob", "knob", "body", "attr", "read", "GET", "shape", "call"]
     ops = []
@@ -1815,6 +1953,8 @@ def model_op(W, op):
     if t == "read":
         g = op[2]
         return "(ORead _ _ %d %s)" % (op[1] % 2, cgetter(g)) if isinstance(g, list) else None
+    if t == "fork":       # the two pure copies of the environ (copy() / copy_get() also rewrite the body keys: oracle only)
+        return "(OCopyEnv _ _)" if op[2] in ("dict", "envcopy") else None
     return None
 
 
@@ -1867,8 +2007,10 @@ MODEL_ATTRS_SET = sorted(ATTR_KIND)
 
 def rand_model_op(rng):
     fam = rng.choice(["attr", "attr", "env", "env", "hdr", "hdr", "GET", "GET", "GET", "cookies", "cookies", "cc", "cc", "cc",
-                      "hold", "read", "del"])
+                      "hold", "read", "del"] + (["fork"] if rng.random() < 0.5 else []))
     w = rng.randrange(2)
+    if fam == "fork":
+        return ["fork", w, rng.choice(["dict", "envcopy"])]
     if fam == "attr":
         n = rng.choice(MODEL_ATTRS_SET)
         kind = ATTR_KIND[n][0]
@@ -1921,7 +2063,8 @@ def rand_model_case(rng, maxlen):
     spec = {"kind": rng.choice(["blank", "blank", "server"]), "path": rng.choice(["/", "/a/b?a=1&b=2", "/p?a=1&a=2", "/x?q=%C3%A9"]),
             "set": []}
     for _ in range(rng.randrange(3)):
-        k = rng.choice(["HTTP_COOKIE", "HTTP_CACHE_CONTROL", "CONTENT_TYPE", "HTTP_IF_MATCH", "HTTP_X_FOO"])
+        k = rng.choice(["HTTP_COOKIE", "HTTP_CACHE_CONTROL", "CONTENT_TYPE", "HTTP_IF_MATCH", "HTTP_X_FOO", "HTTP_CONTENT_TYPE",
+                        "HTTP_CONTENT_LENGTH", "CONTENT_LENGTH"])
         spec["set"].append([k, rng.choice(ENV_KEYS[k])])
     # configurations: the wrapper classes, Request.blank's keywords
     spec["classes"] = [rng.choice(CLASS_NAMES), rng.choice(CLASS_NAMES)]
@@ -1945,7 +2088,50 @@ KNOWN_WITNESSES = [
      [["setattr", 0, "cache_control", {"dict": [["max-age", 5]]}], ["cc", 0, "fresh", ["set", "max_age", 10]]]),
     # multidict.py:297-304 before fixes/C01-3: a value that cannot be written to QUERY_STRING stays in the view
     ({"kind": "blank", "path": "/p?a=1", "set": []}, [["GET", 0, "fresh", ["add", "z", None]]]),
+    # request.py:1122 before fixes/C01-4: the view fetched over a copied environ is the original's CacheControl object
+    ({"kind": "blank", "path": "/?a=1", "set": [["HTTP_CACHE_CONTROL", "no-cache"]]},
+     [["read", 0, "cache_control"], ["fork", 0, "copy"], ["cc", 0, "fresh", ["set", "max_age", 10]]]),
 ]
+
+
+def headers_matrix(extra_keys=()):
+    """Every combination of the two meta-variables and their HTTP_ look-alikes in the environ (blank and server style),
+    then the operations that enumerate or replace the headers mapping."""
+    keys = ["CONTENT_TYPE", "CONTENT_LENGTH", "HTTP_CONTENT_TYPE", "HTTP_CONTENT_LENGTH"]
+    vals = {"CONTENT_TYPE": "text/plain", "CONTENT_LENGTH": "0", "HTTP_CONTENT_TYPE": "text/underscore", "HTTP_CONTENT_LENGTH": "9"}
+    opss = [[], [["hdr", 0, "fresh", ["clear"]]], [["hdr", 1, "fresh", ["assign", [["X-New", "1"], ["Host", "n.example"]]]]],
+            [["hdr", 0, "fresh", ["del", "Content_Type"]]], [["hdr", 0, "fresh", ["del", "Content-Type"]]],
+            [["hdr", 1, "fresh", ["set", "content_length", "3"]], ["hdr", 0, "fresh", ["pop", "CONTENT-LENGTH"]]],
+            [["hdr", 0, "fresh", ["update", [["Content_Type", "u/v"], ["Content-Type", "w/x"]]]]],
+            [["hdr", 0, "fresh", ["assign_pairs", [["Content_Length", "1"], ["content-length", "2"]]]]]]
+    out = []
+    for kind in ("blank", "server"):
+        for mask in range(16):
+            st = [[k, vals[k]] for i, k in enumerate(keys) if mask >> i & 1] + [[k, "x"] for k in extra_keys]
+            dl = [["env_del", k] for i, k in enumerate(keys[:2]) if not mask >> i & 1]
+            for ops in opss:
+                out.append(({"kind": kind, "path": "/", "set": st}, dl + ops))
+    return out
+
+
+def copy_matrix():
+    """A copy of the environ made mid-history, by each of the four routes, with each cache primed or not, then a write of
+    each kind through the copy, then through the original, then a read of both."""
+    T = {"true": 1}
+    primes = {"none": [], "GET": [["read", 0, "GET"]], "cookies": [["read", 0, "cookies"]], "cc": [["read", 1, "cache_control"]],
+              "POST": [["read", 0, "POST"]], "all": [["hold", 0, "GET"], ["hold", 1, "cc"], ["read", 0, "cookies"], ["read", 0, "POST"]]}
+    writes = [["cc", 0, "fresh", ["set", "max_age", 10]], ["GET", 0, "fresh", ["add", "n", "1"]], ["cookies", 0, "fresh", ["set", "n", "1"]],
+              ["hdr", 0, "fresh", ["set", "X-Foo", "copy"]], ["setattr", 0, "cache_control", "no-store"],
+              ["setattr", 0, "query_string", "q=9"], ["cc", 1, 0, ["set", "no_cache", T]], ["GET", 1, 0, ["set", "a", "7"]]]
+    spec = {"kind": "blank", "path": "/p?a=1", "set": [["HTTP_COOKIE", "a=1"], ["HTTP_CACHE_CONTROL", "max-age=5"],
+                                                        ["CONTENT_TYPE", "application/x-www-form-urlencoded"], ["REQUEST_METHOD", "POST"]],
+            "body": b"f=1".hex(), "seekable": True}
+    out = []
+    for how in ("copy", "copy_get", "dict", "envcopy"):
+        for pr in primes.values():
+            for wr in writes:
+                out.append((spec, pr + [["fork", 0, how], wr, ["side", 0], wr, ["side", 1], ["read", 0, "cache_control"]]))
+    return out
 
 
 def outside_matrix():
@@ -1990,6 +2176,8 @@ def small_universe():
         ["GET", 0, "fresh", ["pop", "a", "1"]], ["GET", 1, 0, ["pop", "b", "3"]], ["GET", 0, "fresh", ["pop", "z", ""]],
         ["GET", 1, "fresh", ["setdefault", "a", "1"]], ["GET", 0, 0, ["setdefault", "z", ""]], ["GET", 0, "fresh", ["popitem"]],
         ["GET", 1, 0, ["clear"]], ["GET", 0, "fresh", ["update", [["a", "1"]]]], ["GET", 1, "fresh", ["extend", []]],
+        ["env_set", "HTTP_CONTENT_TYPE", "text/x"], ["hdr", 0, "fresh", ["set", "Content_Length", "7"]],
+        ["hdr", 1, "fresh", ["clear"]], ["hdr", 0, "fresh", ["assign", [["Host", "h.example"], ["content_type", "a/b"]]]],
     ]
 
 
@@ -2119,6 +2307,8 @@ MODELLED = [
     "webob.cachecontrol:CacheControl.parse",              # only: the callback is armed before the dict is filled (get_CC)
     "webob.cachecontrol:UpdateDict._updated",             # cc_mut: a written dict calls back with the bound object
     "webob.request:BaseRequest.charset",                  # get_charset: fixed at first use
+    # OCopyEnv: Request(dict(environ)) -- a shallow copy of the environ, new wrappers (BaseRequest.__init__ above); the
+    # guards that keep the copy from reusing the original's view objects are in BaseRequest.GET / _cache_control__get
 ]
 # string-level functions that are Section variables of the model; the correspondence instantiates them by tables
 # recorded from these objects on the strings of each history (they are C09 / C12 / C15's to model)
@@ -2188,8 +2378,19 @@ def stage_strlib(ctx):
     rng = ctx.sub_rng("strlib")
     cases = strlib_cases(rng, ctx.scale(150, 1500))
     bad = ctx.corr("strlib", IMPORTS, "strlib", cases, in_type="str")
+    found = False
+    for i in bad[:40]:
+        s_ = cases[i][2]["strlib"]
+        # targeted search: the disagreeing string as an environ key, and as a header name, under the enumeration laws
+        jobs = [(spec, ops, "final", FOCUS_GETTERS) for spec, ops in headers_matrix([s_])[:48]]
+        jobs += [({"kind": "blank", "path": "/", "set": []}, [["hdr", 0, "fresh", ["set", s_, "v"]], ["hdr", 1, "fresh", ["clear"]]],
+                  "final", FOCUS_GETTERS)]
+        if oracle_many(ctx, "strlib-targeted", jobs):
+            found = True
+            break
     for i in bad[:5]:
-        ctx.broken.append("correspondence strlib: model and CPython/webob disagree on %r" % cases[i][2]["strlib"])
+        if not found:
+            ctx.broken.append("correspondence strlib: model and CPython/webob disagree on %r" % cases[i][2]["strlib"])
 
 
 
@@ -2200,6 +2401,12 @@ def stage_envview(ctx):
     cases = []
     for spec, ops in KNOWN_WITNESSES[:2]:      # (the third one stores a non-text value: outside the model's domain)
         cases.append(corr_case(spec, ops, [[0, ["cc"]], [1, ["hdr", "cache-control"]]]))
+    for how in ("dict", "envcopy"):            # the fourth one, through the two pure copies of the environ
+        for prime in ([["read", 0, ["cc"]]], [["hold", 1, "cc"], ["hold", 0, "GET"]], []):
+            cases.append(corr_case({"kind": "blank", "path": "/?a=1", "set": [["HTTP_CACHE_CONTROL", "no-cache"]]},
+                                   prime + [["fork", 0, how], ["cc", 0, "fresh", ["set", "max_age", 10]],
+                                            ["GET", 1, "fresh", ["add", "n", "1"]]],
+                                   [[0, ["cc"]], [1, ["GET"]], [0, ["hdr", "cache-control"]]]))
     for _ in range(n):
         spec, ops, probes = rand_model_case(rng, maxlen)
         cases.append(corr_case(spec, ops, probes))
@@ -2287,6 +2494,21 @@ def stage_oracle(ctx):
         spec, ops = rand_history(rng, ctx.scale(10, 20), ["config", "shape"][i % 2])
         jobs.append((spec, ops, [None, rng.randrange(10 ** 6), "final"][i % 3], None))
     oracle_many(ctx, "config-and-shapes", jobs)
+
+    # the headers mapping over environs with the meta-variables and their HTTP_ look-alikes
+    oracle_many(ctx, "headers-enumeration", [(spec, ops, "final", FOCUS_GETTERS) for spec, ops in headers_matrix()])
+
+    # a further live wrapper over a COPY of the environ, writes through both
+    jobs = []
+    for spec, ops in copy_matrix():
+        jobs.append((spec, ops, "final", FOCUS_GETTERS))
+        if ctx.thorough:
+            jobs.append((spec, ops, None, FOCUS_GETTERS))
+    rng = ctx.sub_rng("copies")
+    for i in range(ctx.scale(150, 6000)):
+        spec, ops = rand_history(rng, ctx.scale(10, 20), "copies")
+        jobs.append((spec, ops, [None, rng.randrange(10 ** 6), "final"][i % 3], None))
+    oracle_many(ctx, "copies", jobs)
 
     # outside the model's value domain: what remains of the statement there
     jobs = []
